@@ -156,4 +156,23 @@ theorem applyTx_feeSlot_free (s : St) (t : Tx) (idx : Nat) (hself : ∀ r ∈ t.
     simp [hf, hfree]
   · exact hfree
 
+/-- decidable form of "the fee slots of `t` (id `i`) are not rows of the table" -/
+theorem feeFree_of_rows (u : List (Ver × UItem)) (t : Tx) (i : Nat)
+    (h : ∀ p ∈ u, p.1.1 = i → feeSlot t p.1.2 = false) :
+    ∀ idx, feeSlot t idx = true → lookup u (i, idx) = none := by
+  intro idx hf
+  induction u with
+  | nil => rfl
+  | cons p r ih =>
+    obtain ⟨a, b⟩ := p
+    rw [lookup_cons]
+    have h1 : ¬ a = (i, idx) := by
+      intro e2
+      have := h (a, b) List.mem_cons_self (by simp [e2])
+      simp only [e2] at this
+      rw [this] at hf
+      cases hf
+    simp only [h1, ↓reduceIte]
+    exact ih (fun p hp => h p (List.mem_cons_of_mem _ hp))
+
 end XV.Chain
